@@ -19,6 +19,7 @@ BLK = [R + "umem_alloc.c", R + "ubuf_block_mem.c", R + "ubuf_mem_common.c"]
 VS = [E + "vsched.c"]
 HARNESSES = {
     "c07_lin": {"src": [H + "c07_lin.c"] + VS},
+    "c11_clock": {"src": [H + "c11_clock.c", R + "umem_alloc.c", R + "udict_inline.c", R + "uref_std.c"]},
     "c02_cow": {"src": [H + "c02_cow.c", R + "ubuf_block_mem.c", R + "ubuf_mem_common.c", R + "ubuf_mem.c", R + "ubuf_pic_mem.c", R + "ubuf_pic_common.c",
                         R + "ubuf_pic.c", R + "ubuf_sound_mem.c", R + "ubuf_sound_common.c", R + "uref_pic_flow.c", R + "udict_inline.c",
                         R + "uref_std.c", R + "umem_alloc.c"]},
@@ -223,4 +224,25 @@ CHECKS["C02"] = {
     "bounds": {"quick": "depth 5 from the empty state and depth 4 from each of 5 further start states (block+dup; two blocks; picture+block view; sound+block view; block+dup+picture+dup; segmented block with its offset cache on the 2nd segment), 3 manager configs (prepend,append,align,pool) in {(0,0,0,0),(4,0,0,2),(2,1,4,2)}",
                "thorough": "one level deeper from every start state"},
     "assumptions": DEFAULT_ASSUME,
+}
+
+def _c11_jobs(tier):
+    q = tier == "quick"
+    dl = 75 if q else 840
+    n = 14
+    jobs = [("c11_clock", ["--domains", 3, "--depth", 3, "--deadline", dl])]
+    for sh in range(n):
+        jobs.append(("c11_clock", ["--domains", 3, "--depth", 4 if q else 5, "--shard", "%d/%d" % (sh, n), "--deadline", dl]))
+        jobs.append(("c11_clock", ["--domains", 2, "--depth", 5 if q else 6, "--shard", "%d/%d" % (sh, n), "--deadline", dl]))
+    return jobs
+
+CHECKS["C11"] = {
+    "engine": "seqx", "design_ref": "DESIGN.md section 3 C11",
+    "technique": "explicit-state BFS over set/rebase/delete/add/set_rap/delay/dup sequences on a real uref's clock fields, algebraic invariants through the getters + independent mod-2^64 model",
+    "level_text": "All operation sequences up to the stated depth over the three clock domains and the boundary values 0, 1, 2, 2^63, 2^64-2, 2^64-1 (the 'unset' value); on every transition: set reads back, rebase / reading / uref_dup change none of the twelve getter results, set_rap only at or before the cr, dts=cr+delay, pts=dts+delay, rap=cr-delay whenever readable, and agreement with an independent model. Bounded, not a proof.",
+    "level_note": "Header-only code executed directly. Outside: values other than the 6 boundary values (and what add_date derives from them), sequences beyond the depth.",
+    "jobs": {"quick": _c11_jobs("quick"), "thorough": _c11_jobs("thorough")},
+    "rule": "BFS, key = the uref clock fields (flags, 3 dates, 3 delays); non-trivial = states with at least one date and one delay set",
+    "bounds": {"quick": "3 domains depth 4; 2 domains depth 5 (sharded by first op over 14 jobs each)", "thorough": "3 domains depth 5; 2 domains depth 6"},
+    "assumptions": DEFAULT_ASSUME + ["depth-4/5 jobs are sharded by first operation; states are deduplicated within a shard only"],
 }
